@@ -249,7 +249,7 @@ def run_check(prop: Prop, tier: str, seed: int) -> int:
     known = load_known(pid)
     known_keys = {e["key"]: e for e in known if e.get("status") == "known"}
 
-    b = build.build(prop.prop_file, clean=False)
+    b = build.build(prop.prop_file, clean=False, extended=getattr(prop, "extended_driver", False))
     broken = []  # things that no longer check (names)
     have_model = True
     if not b.ok:
